@@ -70,7 +70,16 @@ let err_name = function
   | FieldAccessInvalid -> "FieldAccessInvalid" | ArityMismatch -> "ArityMismatch" | TupleEmpty -> "TupleEmpty"
   | OperationNotAllowed -> "OperationNotAllowed"
 
+let rec shape (r : rope) : string =
+  match r with
+  | Owned bs -> "O" ^ string_of_int (List.length bs)
+  | Zeroed n -> "Z" ^ string_of_z n
+  | Slice (p, o, l) -> "S(" ^ shape p ^ "," ^ string_of_z o ^ "," ^ string_of_z l ^ ")"
+  | Concat (l, r, _) -> "C(" ^ shape l ^ "," ^ shape r ^ ")"
+  | Tiled (u, c) -> "T(" ^ shape u ^ "," ^ string_of_z c ^ ")"
+
 let dump_outcome = function
+  | Val (BBin r) -> "(ok " ^ dump_rope r ^ ") #shape=" ^ shape r
   | Val v -> "(ok " ^ dump_bval v ^ ")"
   | Err e -> "(err " ^ err_name e ^ ")"
   | Panic _ -> "(panic)"
@@ -82,11 +91,43 @@ let table : (string * (bval -> bval outcome)) list = [
   "integer_compare", impl_integer_compare; "integer_and", impl_integer_and; "integer_or", impl_integer_or;
   "integer_xor", impl_integer_xor; "integer_not", impl_integer_not; "integer_shift", impl_integer_shift;
   "integer_popcount", impl_integer_popcount;
+  "binary_new", impl_binary_new; "binary_length", impl_binary_length; "binary_concat", impl_binary_concat;
+  "binary_repeat", impl_binary_repeat; "binary_and", impl_binary_and; "binary_or", impl_binary_or;
+  "binary_xor", impl_binary_xor; "binary_not", impl_binary_not; "binary_shift", impl_binary_shift;
+  "binary_popcount", impl_binary_popcount; "binary_get", impl_binary_get; "binary_set", impl_binary_set;
+  "binary_slice", impl_binary_slice; "binary_index", impl_binary_index; "binary_hash32", impl_binary_hash32;
+  "binary_hash64", impl_binary_hash64; "binary_append", impl_binary_append;
+  "vector_add", impl_vector_add; "vector_subtract", impl_vector_subtract; "vector_multiply", impl_vector_multiply;
+  "vector_less_than", impl_vector_less_than; "vector_equal", impl_vector_equal;
+  "vector_greater_than", impl_vector_greater_than; "vector_dot", impl_vector_dot; "vector_take", impl_vector_take;
+  "vector_get", impl_vector_get; "vector_push", impl_vector_push; "vector_sum", impl_vector_sum;
 ]
+
+(* reference specs (BuiltinSpec.v) on the flattened argument; filled in below *)
+let spec_table : (string * (bval -> string)) list = []
 
 let () =
   if Array.length Sys.argv > 1 && Sys.argv.(1) = "--names" then
     List.iter (fun (n, _) -> print_endline n) table
+  else if Array.length Sys.argv > 1 && Sys.argv.(1) = "--spec-names" then
+    List.iter (fun (n, _) -> print_endline n) spec_table
+  else if Array.length Sys.argv > 1 && Sys.argv.(1) = "--spec" then
+    try
+      while true do
+        let line = input_line stdin in
+        if String.length line > 0 && line.[0] <> '#' then begin
+          match Sexp.parse line with
+          | Sexp.List [name; arg] ->
+            (match List.assoc_opt (Sexp.atom name) spec_table with
+             | None -> print_endline "(unspecified)"
+             | Some f ->
+               print_endline (try f (bval_of arg) with
+                   | Stack_overflow -> "(unspecified)"
+                   | Out_of_memory -> "(unspecified)"))
+          | _ -> print_endline "(bad-case)"
+        end
+      done
+    with End_of_file -> ()
   else
     try
       while true do
@@ -97,7 +138,10 @@ let () =
             let name = Sexp.atom name in
             (match List.assoc_opt name table with
              | None -> print_endline "(unmodelled)"
-             | Some f -> print_endline (dump_outcome (f (bval_of arg))))
+             | Some f ->
+               print_endline (try dump_outcome (f (bval_of arg)) with
+                   | Stack_overflow -> "(model-crash stack-overflow)"
+                   | Out_of_memory -> "(model-crash out-of-memory)"))
           | _ -> print_endline "(bad-case)"
         end
       done
